@@ -161,6 +161,10 @@ func TestPropEnvBlock(t *testing.T) {
 		for _, k := range []string{"R1", "R2", "r1", "PATH", "A", "b"} {
 			if rapid.IntRange(0, 2).Draw(t, "has"+k) > 0 {
 				runtime[k] = "rt-" + k + rapid.SampledFrom([]string{"", "$$X", " v"}).Draw(t, "rv")
+				if rapid.IntRange(0, 4).Draw(t, "emptyrt") == 0 {
+					// present, and empty: still present
+					runtime[k] = ""
+				}
 			}
 		}
 		for k, v := range collisionRuntime {
